@@ -19,10 +19,10 @@ From Mage Require Import Base.Strs Base.Expand Model.Slices Proof.Slices_facts.
 
 Section W.
 (* external: the operating system and the child, as functions of the process environment at the time of the
-   call and of the argv handed over (which program the command word names - PATH, the file system of that
+   call, of the env map handed to Exec ([] for closures, Run, RunV, Output) and of the argv handed over (which program the command word names - PATH, the file system of that
    moment -, what it prints, how it exits; not started: "" and 1) *)
-Variable child_out : list (string * string) -> list string -> string.
-Variable child_exit : list (string * string) -> list string -> nat.
+Variable child_out : list (string * string) -> list (string * string) -> list string -> string.
+Variable child_exit : list (string * string) -> list (string * string) -> list string -> nat.
 Variable h0 : heap.
 Variable cls0 : list closure.                   (* closures that exist before the history (may be none) *)
 Hypothesis closures_in_heap : cls_ok h0 cls0.
@@ -49,9 +49,9 @@ Theorem C16_closure_is_run : forall penv pre c extra post cl,
   let argv := map (expand_env env_i) (cl_cmd cl :: contents h0 (cl_baked cl) ++ contents h0 extra) in
   exists h', nth_error (run_history child_out child_exit true penv cls0 h0 (pre ++ CallClosure c extra :: post)) (length pre)
              = Some (OCall argv
-                           (match cl_kind cl with KRun => None | KOut => Some (trim_nl (child_out env_i argv)) end)
-                           (match cl_kind cl with KRun => if verbose env_i then child_out env_i argv else "" | KOut => "" end)
-                           (child_exit env_i argv), h').
+                           (match cl_kind cl with KRun => None | KOut => Some (trim_nl (child_out env_i [] argv)) end)
+                           (match cl_kind cl with KRun => if verbose env_i then child_out env_i [] argv else "" | KOut => "" end)
+                           (child_exit env_i [] argv), h').
 Proof. exact (fun penv pre c extra post cl => thm_closure_is_run child_out child_exit h0 penv cls0 pre c extra post cl closures_in_heap). Qed.
 
 (* The direct functions, at any position of any history: cmd and the caller's elements, expanded with the
@@ -62,7 +62,7 @@ Theorem C16_direct_call : forall penv pre f emap cmd args post,
   let env_i := env_at penv pre in
   let argv := map (expand (mapping (if uses_map f then emap else []) env_i)) (cmd :: contents h0 args) in
   exists h', nth_error (run_history child_out child_exit true penv cls0 h0 (pre ++ CallDirect f emap cmd args :: post)) (length pre)
-             = Some (finish_direct child_out child_exit f env_i argv, h').
+             = Some (finish_direct child_out child_exit f emap env_i argv, h').
 Proof. exact (fun penv pre f emap cmd args post => thm_direct_call child_out child_exit h0 penv cls0 pre f emap cmd args post closures_in_heap). Qed.
 
 (* "exactly like sh.Run or sh.Output": in the same place of the same history, the closure call and the
@@ -107,7 +107,7 @@ Theorem C16_closure_is_run_before_repair_refuted : forall child_out child_exit,
   exists h0 penv pre c extra post,
     Forall (op_ok h0) (pre ++ CallClosure c extra :: post) /\
     exists ob h', nth_error (run_history child_out child_exit false penv [] h0 (pre ++ CallClosure c extra :: post)) (length pre) = Some (ob, h') /\
-                  ob = OCall ["echo"; "one"] (Some (trim_nl (child_out (env_at penv pre) ["echo"; "one"]))) "" (child_exit (env_at penv pre) ["echo"; "one"]) /\
+                  ob = OCall ["echo"; "one"] (Some (trim_nl (child_out (env_at penv pre) [] ["echo"; "one"]))) "" (child_exit (env_at penv pre) [] ["echo"; "one"]) /\
                   spec_argv h0 (cls_at [] pre) (env_at penv pre) (CallClosure c extra) = ["echo"; "two"] /\
                   firstn (length h0) h' <> h0.
 Proof. exact thm_closure_is_run_before_repair_refuted. Qed.
